@@ -1,6 +1,7 @@
 /-
-Bits <-> octets, most significant bit first (import-free; shared by the CCITT model and the T.6
-specification): `(128, 64, 32, 16, 8, 4, 2, 1)` in `feedbytes` and in `output_line`.
+Bits -> octets, most significant bit first (import-free): how the T.6 specification packs its code
+bits and its sample data.  (The model's own packing / unpacking uses the masks regenerated from
+`feedbytes` and `output_line`; `Lemmas/CcittImage.lean` proves that they agree with this.)
 -/
 
 namespace PdfVerif.Ccitt
@@ -19,9 +20,5 @@ def packBits : List Bool → List UInt8
   | b0 :: b1 :: b2 :: b3 :: b4 :: b5 :: b6 :: b7 :: rest =>
     byteOfBits [b0, b1, b2, b3, b4, b5, b6, b7] :: packBits rest
   | l => [byteOfBits l]
-
-/-- `byte & m` for m = 128, 64, …, 1 -/
-def bitsOfByte (b : UInt8) : List Bool :=
-  [128, 64, 32, 16, 8, 4, 2, 1].map fun m => (b.toNat / m) % 2 == 1
 
 end PdfVerif.Ccitt
